@@ -602,6 +602,12 @@ func predicateNext(c *core.Ctx, rule, name string, fn *ssa.Function, an *ir.Anal
 			if st.fresh && p.Exit == ir.ExitReturn {
 				fail(lastPos(p), "the inner iterator advanced to an element that is neither tested nor reported")
 			}
+			// giving up without even trying to advance is right only in the dead state (the predicate was cleared, the
+			// inner iterator is gone, a done flag is set): a live iterator whose Next answers false at once loses the
+			// rest of the sequence
+			if isRet && !rv && p.From == nil && len(evs) == 0 && !deadStateEstablished(p, fn) {
+				fail(lastPos(p), "Next answers false without advancing the inner iterator although no dead state (a cleared field / a set flag of the receiver) was established on this path: the rest of the sequence is lost")
+			}
 		}
 	}
 	if ok && nTrue > 0 {
@@ -609,6 +615,39 @@ func predicateNext(c *core.Ctx, rule, name string, fn *ssa.Function, an *ir.Anal
 	} else if ok {
 		c.Fail(rule, name, fn.Pos(), "no path returns true")
 	}
+}
+
+// recvFieldTerm: t reads a field of the receiver of method fn (value or pointer receiver).
+func recvFieldTerm(t *ir.Term, fn *ssa.Function) bool {
+	if t == nil || len(fn.Params) == 0 {
+		return false
+	}
+	if t.Op == "field" && len(t.Args) == 1 {
+		return paramOf(t.Args[0], fn, 0) || recvFieldTerm(t.Args[0], fn)
+	}
+	if t.Op == "load" && len(t.Args) == 1 && t.Args[0].Op == "faddr" {
+		x := t.Args[0].Args[0]
+		return paramOf(x, fn, 0) || x.Op == "faddr" && recvFieldTerm(&ir.Term{Op: "load", Args: []*ir.Term{x}}, fn)
+	}
+	return false
+}
+
+// deadStateEstablished: the path has found a field of the receiver nil, or a boolean field of the receiver set.
+func deadStateEstablished(p *ir.Path, fn *ssa.Function) bool {
+	for _, s := range p.Events(ir.KBranch) {
+		at := s.Atom
+		if at.Op == "bin" && at.Aux == "==" && len(at.Args) == 2 && s.Pol {
+			for i := 0; i < 2; i++ {
+				if at.Args[i].IsNil() && recvFieldTerm(at.Args[1-i], fn) {
+					return true
+				}
+			}
+		}
+		if s.Pol && recvFieldTerm(at, fn) {
+			return true
+		}
+	}
+	return false
 }
 
 func takeWhileRules(c *core.Ctx, pkg string, pair bool) {
@@ -756,9 +795,86 @@ func dropWhileRules(c *core.Ctx, pkg string) {
 				ok = false
 				c.Fail("eager-position", name, lastPos(p), "an iteration must test the predicate once and advance once (tests=%d, advances=%d)", nUser, nNext)
 			}
+			// another pass is made only after the advance succeeded: going round on an exhausted iterator never ends
+			// (or tests its last element again)
+			for _, e := range evs {
+				if e.kind == "next" && polarity(p, e.st.R) <= 0 {
+					ok = false
+					c.Fail("eager-position", name, e.st.Pos(), "the loop makes another pass without having found that the advance succeeded: on an exhausted sequence it never ends")
+				}
+			}
 		}
 	}
+	if bad := untestedSkip(an); bad != nil {
+		ok = false
+		c.Fail("eager-position", name, bad.Pos(), "the iterator is advanced past an element the predicate has not seen (the first element, or the one just reached): that element is dropped untested")
+	}
 	c.Check(ok && nSeq > 0, "eager-position", name, fn.Pos(), "drop while f(current); nil when exhausted", "shape not recognised")
+}
+
+// untestedSkip: a positioning loop (Filter, DropWhile) may leave an element behind only after the predicate has seen
+// it. "Untested" holds on entry (the iterator is positioned on its first element, not yet shown to the predicate) and
+// after every successful advance; a predicate call clears it; an advance while it holds skips an element the
+// predicate never saw. The fact at a loop head is the meet over its arrivals. Returns the offending advance.
+func untestedSkip(an *ir.Analysis) *ir.Step {
+	end := func(p *ir.Path, start bool) (bool, *ir.Step) {
+		u := start
+		var bad *ir.Step
+		for _, e := range iterEvents(p) {
+			switch e.kind {
+			case "user":
+				u = false
+			case "next":
+				if u && bad == nil {
+					bad = e.st
+				}
+				u = polarity(p, e.st.R) > 0
+			}
+		}
+		return u, bad
+	}
+	facts := map[*ssa.BasicBlock]bool{}
+	for _, h := range an.Headers {
+		facts[h] = false // pessimistic for reporting: "untested" only when every arrival says so
+	}
+	// an arrival that is untested makes the head untested (may-analysis: one such arrival is enough to lose an element)
+	for round := 0; round < 8; round++ {
+		changed := false
+		for _, h := range an.Headers {
+			v := false
+			for _, ps := range an.Segs {
+				for _, q := range ps {
+					if q.To != h {
+						continue
+					}
+					start := true
+					if q.From != nil {
+						start = facts[q.From]
+					}
+					if e, _ := end(q, start); e {
+						v = true
+					}
+				}
+			}
+			if v != facts[h] {
+				facts[h] = v
+				changed = true
+			}
+		}
+		if !changed {
+			break
+		}
+	}
+	for _, p := range an.AllPaths() {
+		start := true
+		if p.From != nil {
+			start = facts[p.From]
+		}
+		if _, bad := end(p, start); bad != nil {
+			return bad
+		}
+	}
+	return nil
 }
 
 func filterRules(c *core.Ctx, pkg string, pair bool) {
@@ -832,6 +948,10 @@ func filterRules(c *core.Ctx, pkg string, pair bool) {
 				c.Fail("eager-position", name, lastPos(p), "a pass of the skipping loop must find the predicate false on the current element and then advance successfully, once each (tests=%d, advances=%d)", len(users), len(nexts))
 			}
 		}
+	}
+	if bad := untestedSkip(an); bad != nil {
+		ok = false
+		c.Fail("eager-position", name, bad.Pos(), "the iterator is advanced past an element the predicate has not seen (the first element, or the one just reached): that element is lost")
 	}
 	c.Check(ok && nObj > 0, "eager-position", name, ctor.Pos(), "skip until f(current); nil when exhausted", "shape not recognised")
 	if next := iterMethod(c, nt, "Next"); next != nil {
